@@ -13,7 +13,7 @@ PROP = "C17"
 DRIVER = "c17"
 MODEL = "C17"
 MODEL_QUALID = "Model.Fallback.run_script"
-FORMAT = ("[strategy 0..5 (value,value_fn,from_error,from_request_error,service,exception); pred_mode: bits0-1 0=none "
+FORMAT = ("[strategy 0..5 (value,value_fn [generator returns value+1+100*call],from_error,from_request_error,service,exception); pred_mode: bits0-1 0=none "
           "1=even-errors 2=all 3=none-accepted, +4: the builder calls handle() BEFORE the strategy setter, +8 name() first, "
           "+16 on_event() between the setters, +32 name()+on_event() last, +64 decoy strategy setter first, +128 convenience "
           "constructor of layer.rs (only without predicate), +256 decoy handle(negated predicate) before the real handle(); value; req; inner_kind 0=ok 1=err; inner_val; backup_kind; "
@@ -48,6 +48,8 @@ def corpus():
         # backup service: dropped between the inner failure and the backup answer; a second call completes
         header(4, 1) + [1, 0, 5, 1, 1, 6, 2, 0, 0, 2, 1, 0, 3, 0, 4 * 8 + 1, 3, 1, 4 * 6 + 1, 2, 0, 0, 2, 1, 0, 5, 0, 0, 4, 0, 4 * 700,
                         4, 1, 4 * 801 + 1, 2, 1, 0],
+        # value_fn: two calls fall back, each must get the value the generator produced for it (9+1+100*call)
+        header(1, 0) + [1, 0, 5, 1, 1, 6, 2, 0, 0, 2, 1, 0, 3, 0, 4 * 7 + 1, 3, 1, 4 * 8 + 1, 2, 1, 0, 2, 0, 0],
         # readiness error, then a normal call; inner panic
         header(5, 2) + [6, 0, 33, 1, 0, 4, 2, 0, 0, 3, 0, 2, 2, 0, 0, 6, 1, 34],
         # convenience constructor, overridden strategy setter, name/on_event around handle
@@ -276,7 +278,11 @@ def monitor(s, t):
         else:
             if any(x[1] == 5 for x in fb_evs):
                 return "call %d: backup service called although the strategy is not Service" % k
-            exp = {0: (0, v), 1: (0, v + 1), 2: (0, 1000 + 3 * e), 3: (0, 2000 + 37 * req + e), 5: (1, 5000 + 7 * e)}[st]
+            # value_fn: the harness's generator returns value + 1 + 100 * (the call being polled): the response must be what
+            # the generator produced when invoked for THIS call, and it must have been invoked for it
+            exp = {0: (0, v), 1: (0, v + 1 + 100 * k), 2: (0, 1000 + 3 * e), 3: (0, 2000 + 37 * req + e), 5: (1, 5000 + 7 * e)}[st]
+            if st == 1 and not any(x[1] == 2 for x in fb_evs):
+                return "call %d: value_fn fallback %s returned without invoking the generator for this call" % (k, (kind, payload))
         if (kind, payload) != exp:
             return "call %d (request %d, error %d): strategy %d produced %s, specified %s" % (k, req, e, st, (kind, payload), exp)
     if len(ready) != len(ready_errs):
